@@ -19,16 +19,18 @@ const caseTail = "Definition M := Eval vm_compute in mismatches check_case cases
 	"Definition NIDLE := Eval vm_compute in (count_if is_idle cases : Z).\nPrint NIDLE.\n" +
 	"Definition NFULL := Eval vm_compute in (count_if is_full cases : Z).\nPrint NFULL.\n" +
 	"Definition NCAP := Eval vm_compute in (count_if is_cap cases : Z).\nPrint NCAP.\n" +
+	"Definition NRACE := Eval vm_compute in (count_if is_race cases : Z).\nPrint NRACE.\n" +
+	"Definition NRACELOST := Eval vm_compute in (count_if race_lost cases : Z).\nPrint NRACELOST.\n" +
 	"Definition NSYS := Eval vm_compute in (count_if is_sys cases : Z).\nPrint NSYS.\n" +
 	"Definition NSOCKETS := Eval vm_compute in (sum_Z fwd_sockets cases : Z).\nPrint NSOCKETS.\n"
 
-// runUDP: -extra selects parts ("pure,fwd,full,sys,idle"; default all).  -n scales the pure part;
+// runUDP: -extra selects parts ("pure,fwd,full,sys,idle,race"; default all).  -n scales the pure part;
 // the other parts have fixed scenario lists (longer in the thorough tier).
 func runUDP(cfg *hx.RunCfg) error {
 	hx.Quiet()
 	parts := cfg.Extra
 	if parts == "" {
-		parts = "pure,fwd,full,sys,idle"
+		parts = "pure,fwd,full,sys,idle,race"
 	}
 	has := func(p string) bool { return strings.Contains(","+parts+",", ","+p+",") }
 	g := hx.NewGen(cfg.Seed)
@@ -42,6 +44,16 @@ func runUDP(cfg *hx.RunCfg) error {
 	if has("idle") {
 		idleDone = make(chan []string, 1)
 		go func() { idleDone <- runIdle(cfg, hx.NewGen(cfg.Seed+1000), dist0(), &fails) }()
+	}
+
+	type raceOut struct {
+		cases []string
+		res   raceResult
+	}
+	var raceDone chan raceOut
+	if has("race") {
+		raceDone = make(chan raceOut, 1)
+		go func() { c, r := runRace(cfg, hx.NewGen(cfg.Seed+2000)); raceDone <- raceOut{c, r} }()
 	}
 
 	if has("pure") {
@@ -66,6 +78,14 @@ func runUDP(cfg *hx.RunCfg) error {
 	}
 	if idleDone != nil {
 		cases = append(cases, <-idleDone...)
+	}
+
+	if raceDone != nil {
+		ro := <-raceDone
+		cases = append(cases, ro.cases...)
+		cfg.St["finding_idle_boundary"] = map[string]any{"key": raceFindingKey, "reproduced": ro.res.Reproduced,
+			"gate_seen": ro.res.GateSeen, "what": ro.res.What, "case": ro.res.Case}
+		hx.CountBy(dist, fmt.Sprintf("race gate_seen=%v lost=%v", ro.res.GateSeen, ro.res.Reproduced))
 	}
 
 	distinct := map[string]bool{}
